@@ -49,8 +49,8 @@ pub fn run(p: &Params) -> Run {
     for it in 0..iterations {
         let sch = gen_schema(&mut rng);
         // statement kinds in rotation: plain select, DISTINCT, join (fan-out), aggregate
-        let kind = *rng.pick(&["sel", "sel", "dist", "join", "join", "agg"]);
-        let opts = QueryOpts { allow_limit: false, allow_distinct: kind == "dist", allow_join: kind == "join", aggregate: Some(kind == "agg") };
+        let kind = *rng.pick(&["sel", "sel", "dist", "join", "join", "agg", "joinf"]);
+        let opts = QueryOpts { allow_limit: false, allow_distinct: kind == "dist", allow_join: kind == "join" || kind == "joinf", aggregate: Some(kind == "agg") };
         let mut gq = gen_query(&mut rng, &sch, &opts, &jp);
         for _ in 0..12 {
             let ok = match kind {
@@ -61,7 +61,24 @@ pub fn run(p: &Params) -> Run {
             if ok { break; }
             gq = gen_query(&mut rng, &sch, &opts, &jp);
         }
-        let jlines: Vec<String> = (0..rng.below(10)).map(|_| gen_join_line(&mut rng)).collect();
+        let mut jlines: Vec<String> = (0..rng.below(10)).map(|_| gen_join_line(&mut rng)).collect();
+        if kind == "joinf" {
+            // fan-out stream: few keys, several partners per key, and a statement in which some partners of a line yield
+            // no row (WHERE on a joined-side column) or a row DISTINCT swallows — the n-th row of the unlimited result
+            // then comes from a LATE partner, which a LIMIT that counts partners instead of rows cuts off
+            jlines = (0..3 + rng.below(8)).map(|_| format!("#{};{};{}", rng.pick(&["a", "a", "b", "c"]), rng.range(-2, 6), rng.pick(&["x", "y", "x", "hello"]))).collect();
+            let outer = if rng.chance(1, 4) { "OUTER" } else { "INNER" };
+            let on = if rng.chance(1, 2) { "t.k = u.k" } else { "u.k = t.k" };
+            let (sel, filter) = match rng.below(6) {
+                0 => ("t.k, u.v, y".to_owned(), format!(" WHERE u.v {} {}", rng.pick(&[">", "<", "=", "!=", ">="]), rng.range(-1, 5))),
+                1 => ("*".to_owned(), format!(" WHERE y {} '{}'", rng.pick(&["=", "!="]), rng.pick(&["x", "y", "hello"]))),
+                2 => (format!("DISTINCT {}", rng.pick(&["t.k", "t.k, y", "y", "u.v", "t.k, t.v"])), String::new()),
+                3 => (format!("DISTINCT {}", rng.pick(&["t.k", "y", "u.v"])), format!(" WHERE u.v {} {}", rng.pick(&[">", "<", "!="]), rng.range(-1, 5))),
+                4 => ("t.k, u.v".to_owned(), format!(" WHERE u.v > t.v OR y = '{}'", rng.pick(&["x", "hello"]))),
+                _ => ("u.v, t.v".to_owned(), " WHERE u.v IS NOT NULL AND u.v != 0".to_owned()),
+            };
+            gq = GenQuery { text: format!("SELECT {} FROM t{} {} JOIN u::'{}' ON {}", sel, filter, outer, jp, on), is_aggregate: false, joined: true };
+        }
         let joined = join_lines(&jlines);
         std::fs::write(&jpath, &joined).unwrap();
         let unlimited = match prepare(&sch.defs, &gq.text) {
